@@ -72,6 +72,8 @@ def run(tier):
                   role="design: substring surgery = whole-token surgery, independent of the order of the input molecules")
     rep.add_model(common.neg_check("Constrain", "Neg_Constrain.cfg"),
                   role="negative: input molecules whose text begins with a marker")
+    from harness import constrain_replay
+    constrain_replay.run(rep, "C14", {"OrderOfInputIrrelevant"})
     rng = random.Random(common.seed() * 57 + 11)
     th = common.tree_hash()
     wd = common.workdir("rec", th, "c14_%s_%d" % (tier, common.seed()), fresh=True)
